@@ -18,6 +18,8 @@ import os
 import vlib
 
 M_ACTIONS = ["InitCall", "TrySet", "InitRet", "ObsCall", "Read", "ObsReturn"]
+ENTRY_POINTS = ["try_init_slot", "init_slot", "slot_init", "try_init", "init",
+                "try_init_internal", "init_internal", "internal_slot_init"]
 
 
 def _validate(ctx, trace, label):
@@ -149,7 +151,7 @@ def run(ctx):
     # ---- T: real executions
     rounds = 3000 if ctx.quick else 50000
     shards = 3 if ctx.quick else 10
-    children = 60 if ctx.quick else 300
+    children = 80 if ctx.quick else 300
     tdir = os.path.join(ctx.out, "traces")
     os.makedirs(tdir, exist_ok=True)
     # exit code 3: a call into the code under test did not return within the harness's
@@ -178,7 +180,7 @@ def run(ctx):
         for fu in concurrent.futures.as_completed(futs):
             results[futs[fu][0]] = (futs[fu], fu.result())
     stats = {"rounds": 0, "events": 0, "rounds_observing_both_sides": 0, "init_panics": 0,
-             "rounds_with_3_racers": 0}
+             "rounds_with_3_racers": 0, "entry_points": {}}
     for label, ((_, path, origin), (ok, last, reason)) in sorted(results.items()):
         if origin == "selftest":
             if not results[jobs[0][0]][1][0]:
@@ -200,6 +202,13 @@ def run(ctx):
             stats["rounds_observing_both_sides"] == 0 or stats["init_panics"] == 0 or
             stats["rounds_with_3_racers"] == 0):
         raise vlib.ToolError("vacuous stress run: %s" % stats)
+    # every public initialisation entry point must have been seen winning and losing, and
+    # observed afterwards (vacuity guard over the entry points)
+    missing = [k for k in ENTRY_POINTS
+               if not all(stats["entry_points"].get(k, {}).get(f) for f in ("won", "lost", "observed"))]
+    if not ctx.violations and missing:
+        raise vlib.ToolError("initialisation entry points not exercised (won/lost/observed): %s; %s"
+                             % (missing, stats["entry_points"]))
     ctx.cov["exhaustive"] = True
     ctx.assumptions += [
         "the interleavings of the real OnceLock are produced by the OS scheduler (barrier release "
@@ -210,6 +219,12 @@ def run(ctx):
         "components are test doubles tagged with the initialiser index; 'receiving an event' = "
         "any invocation of a tagged component (counted per tag, Tally)",
         "std::sync::OnceLock::set / get are linearizable (the TrySet / Read steps of the spec)",
+        "initialisation goes through every public entry point: try_init_slot / init_slot / "
+        "AmbientSlot::init on fresh slots, try_init / init on the shared slot, try_init_internal / "
+        "init_internal / AmbientInternalSlot::init on the internal slot (global slots: one round "
+        "per child process); each must be seen winning, losing and observed afterwards",
+        "each of the five tagged components answers with a non-default value (the filter rejects "
+        "a marker module the empty filter accepts)",
         "flush observations use seeded timeouts {0, 1 ns, 1 ms, 1 s, Duration::MAX} through "
         "get().emitter(), the runtime as Emitter and (global slot) emit::blocking_flush; on an "
         "initialised slot the value returned must be the tagged emitter's answer",
@@ -254,14 +269,29 @@ def _stats(path, stats, ctx):
             if line.startswith('{"e":"Reset"'):
                 if cur is not None:
                     _close(cur, stats, ctx)
-                cur = {"sides": set(), "inits": 0, "lines": []}
+                cur = {"sides": set(), "inits": 0, "lines": [], "kinds": {}, "winner": None,
+                       "obs_installed": False}
                 stats["rounds"] += 1
             elif line.startswith('{"e":"ObsRet"'):
                 e = json.loads(line)
                 t = [x for x in e["tags"] if x != 99]
                 cur["sides"].add((t[0] != 0) if t else e["en"])
+                if len(t) >= 4 and t[0] != 0:
+                    # emit / span / probe on an installed configuration: all components
+                    cur["obs_installed"] = True
+            elif line.startswith('{"e":"InitCall"'):
+                e = json.loads(line)
+                cur["kinds"][e["i"]] = e["k"]
             elif line.startswith('{"e":"InitRet"'):
                 cur["inits"] += 1
+                e = json.loads(line)
+                k = cur["kinds"].get(e["i"], "?")
+                ep = stats["entry_points"].setdefault(k, {"won": 0, "lost": 0, "observed": 0})
+                if e["r"] in ("some", "ok"):
+                    ep["won"] += 1
+                    cur["winner"] = k
+                else:
+                    ep["lost"] += 1
                 if '"r":"panic"' in line:
                     stats["init_panics"] += 1
             if len(cur["lines"]) < 60:
@@ -271,6 +301,8 @@ def _stats(path, stats, ctx):
 
 
 def _close(cur, stats, ctx):
+    if cur["winner"] and cur["obs_installed"]:
+        stats["entry_points"][cur["winner"]]["observed"] += 1
     if len(cur["sides"]) == 2:
         stats["rounds_observing_both_sides"] += 1
         if cur["inits"] == 3:
